@@ -313,6 +313,18 @@ def _big_part(g, res):
             rep("diffusionTerm", pf.diffusionTerm(Dn) @ x, _div(g, Dn * pf.gradientTerm(phi)), " (%s coefficient arrays)" % lab)
             rep("convectionTerm", pf.convectionTerm(un) @ x, _div(g, un * pf.linearMean(phi)), " (%s coefficient arrays)" % lab)
             rep("convectionUpwindTerm", pf.convectionUpwindTerm(un) @ x, _div(g, un * pf.upwindMean(phi, un)), " (%s coefficient arrays)" % lab)
+    # layered media: coefficient and cell fields that vary along one axis only
+    if g.d > 1:
+        for vax in (0, g.d - 1):
+            Dl = U.face_from_arrays(g.mesh, [U.layered_array(s_, vax, tag=61 + a_) for a_, s_ in enumerate(g.face_shapes)])
+            ul = U.face_from_arrays(g.mesh, [U.layered_array(s_, vax, tag=65 + a_, signed=True) for a_, s_ in enumerate(g.face_shapes)])
+            fl = U.layered_array(g.fshape, (vax + 1) % g.d, tag=69, signed=True)
+            phil = g.cell(fl)
+            xl = fl.ravel()
+            lab = " (fields varying along axis %d only)" % vax
+            rep("diffusionTerm", pf.diffusionTerm(Dl) @ xl, _div(g, Dl * pf.gradientTerm(phil)), lab)
+            rep("convectionTerm", pf.convectionTerm(ul) @ xl, _div(g, ul * pf.linearMean(phil)), lab)
+            rep("convectionUpwindTerm", pf.convectionUpwindTerm(ul) @ xl, _div(g, ul * pf.upwindMean(phil, ul)), lab)
     for fld in phis:
         phi = g.cell(fld)
         x = fld.ravel()
